@@ -2,7 +2,7 @@
 # seed_verify.sh <Cxx> <A|B> : confirm a sub-agent's mutation in its scratch worktree
 # (tests pass with it, demo fails with it and passes without), then store it under seeded/.
 pid=$1; v=$2
-wt=/tmp/mut_$pid
+wt=${MUT_PREFIX:-/tmp/mut_}$pid
 src=$wt/out/$v
 cd $wt || exit 2
 git checkout -q -- src
